@@ -230,8 +230,8 @@ func ProvideModule(in ModuleInputs) ModuleOutputs {
 	return ModuleOutputs{FundraisingKeeper: k, Module: m}
 }
 
-func InvokeSetHooks(keeper *keeper.Keeper, hooks map[string]types.FundraisingHooks) error {
-	if keeper == nil || hooks == nil {
+func InvokeSetHooks(keeper keeper.Keeper, hooks map[string]types.FundraisingHooks) error {
+	if hooks == nil {
 		return nil
 	}
 
